@@ -178,6 +178,31 @@ Definition from_code (h : heap) (x : cref) : res (heap * nat) :=
   | RCode c => bind (init_code c) (fun d => Ok ((h ++ [d])%list, length h))
   end.
 
+(* from_code of anything else: cls( *code ) unpacks its argument.  A plain pydicom Dataset iterates its DATA ELEMENTS:
+   fewer than 3 or more than 4 of them -> TypeError (arity of __init__); 3 or 4 -> the first element lands in `value`
+   and value.startswith fails: AttributeError.  So from_code never accepts a plain Dataset. *)
+Definition n_elems (d : dsobj) (has_seq : bool) : Z :=
+  b2z (isSome (d_cv d)) + b2z (isSome (d_lcv d)) + b2z (isSome (d_urn d)) + b2z (isSome (d_meaning d)) +
+  b2z (isSome (d_scheme d)) + b2z (isSome (d_version d)) + b2z has_seq.
+Definition from_code_plain_err (n : Z) : string :=
+  if (n <? 3) || (4 <? n) then "TypeError" else "AttributeError".
+(* every argument from_code can be given: a Code / a concept (cref), a plain Dataset (with or without a nested
+   sequence), something that cannot be unpacked (None, int), or an iterable of strings (a tuple, a str = its characters) *)
+Inductive fcarg :=
+| FCRef (x : cref)
+| FCPlain (d : dsobj) (has_seq : bool)
+| FCNotIterable
+| FCStrings (l : list string).
+Definition from_code_any (h : heap) (x : fcarg) : res (heap * nat) :=
+  match x with
+  | FCRef r => from_code h r
+  | FCPlain d has_seq => Err (from_code_plain_err (n_elems d has_seq))
+  | FCNotIterable => Err "TypeError"
+  | FCStrings [v; s; m] => from_code h (RCode (Code v s m None))
+  | FCStrings [v; s; m; ver] => from_code h (RCode (Code v s m (Some ver)))
+  | FCStrings _ => Err "TypeError"
+  end.
+
 (* ---- boundary functions for the correspondence run ----------------------------- *)
 Fixpoint assoc (tbl : list (string * string)) (k : string) : option string :=
   match tbl with
@@ -481,6 +506,10 @@ Fixpoint kid_of (kids : list (nat * nat)) (a : nat) : option nat :=
   end.
 Definition as_pyval (d : dsobj) : pyval := if d_cc d then VObj (HD d) else VPlain d.
 
+(* two items of nested sequences compared by Python's list equality: identity first, then == *)
+Definition item_eq (srt : string -> option string) (cx cy : nat) (x y : dsobj) : res bool :=
+  if Nat.eqb cx cy then Ok true else py_eq srt (as_pyval x) (as_pyval y).
+
 (* ---- Extension 5: objects with a past ---------------------------------------------------------------
    hash(obj) of the real class reads the attributes at the time of the call: in the model it is a function
    of the CURRENT record and nothing else (no operation below stores anything a later hash could see).
@@ -532,7 +561,8 @@ Definition step (srt : string -> option string) (st : state) (o : op) : state * 
       match x with
       | RConcept a =>
           match nth_error h a with
-          | Some d => if d_cc d then (st, vnat a) else (st, VErr "unsupported")
+          | Some d => if d_cc d then (st, vnat a)
+                      else (st, VErr (from_code_plain_err (n_elems d (isSome (kid_of kids a)))))
           | None => (st, VErr "dangling")
           end
       | RCode c =>
@@ -580,20 +610,22 @@ Definition step (srt : string -> option string) (st : state) (o : op) : state * 
   | OEq a b =>
       match nth_error h a, nth_error h b with
       | Some da, Some db =>
-          (* two concepts: CodedConcept.__eq__ (the nested sequence is not looked at); otherwise pydicom
-             compares every element, the nested item included *)
+          (* two concepts: CodedConcept.__eq__ (the nested sequence is not looked at); otherwise pydicom's
+             _dict_equal(L, R) compares every element, the nested sequences as lists: R's item == L's item
+             (identity first); L = the plain operand when the other one is a concept (reflected call) *)
+          let swap := d_cc da && negb (d_cc db) in
           let nested_eq :=
             match kid_of kids a, kid_of kids b with
-            | None, None => true
+            | None, None => Ok true
             | Some ca, Some cb => match nth_error h ca, nth_error h cb with
-                                  | Some x, Some y => fields_eqb x y
-                                  | _, _ => false
+                                  | Some x, Some y => if swap then item_eq srt ca cb x y else item_eq srt cb ca y x
+                                  | _, _ => Ok false
                                   end
-            | _, _ => false
+            | _, _ => Ok false
             end in
           (st, if Nat.eqb a b then (if d_cc da then vrb (obj_eq srt (HD da) (HD da)) else VB true)
                else if d_cc da && d_cc db then vrb (obj_eq srt (HD da) (HD db))
-               else vrb (bind (py_eq srt (as_pyval da) (as_pyval db)) (fun r => Ok (r && nested_eq))))
+               else vrb (bind (py_eq srt (as_pyval da) (as_pyval db)) (fun r => if r then nested_eq else Ok false)))
       | _, _ => (st, VErr "dangling")
       end
   | OSetCode a k v =>
@@ -678,3 +710,115 @@ Definition store_file_load (v s m : string) (ver : option string) : res dsobj :=
     bind (from_dataset [file_roundtrip d] (Addr 0%nat) true) (fun hr =>
       match nth_error (fst hr) (snd hr) with Some d' => Ok d' | None => Err "dangling" end)).
 Definition run_store_file (v s m : string) (ver : option string) : val := vres vconcept (store_file_load v s m ver).
+
+(* ======================================================================================
+   Extension 6: from_code of anything (boundary function) *)
+Definition run_from_code_any (x : fcarg) : val :=
+  match from_code_any [] x with
+  | Ok (h, r) => VL [VB false; vopt vconcept (nth_error h r)]
+  | Err k => VErr k
+  end.
+
+(* ======================================================================================
+   Extension 7: the larger machine.  Two user actions that are outside the API's invariant:
+     ODelAttr a k   del obj.<attribute(s)>  (k = 0: every code-value attribute, 1: CodeMeaning, 2: CodingSchemeDesignator)
+                    - the object is malformed afterwards; hash / == / lookups / conversions of it are answered from
+                      the record as it is (errors included);
+     OShallow a     copy.copy(obj) / obj.copy(): a NEW object (own identity, own class) on the SAME element store:
+                    every later write or deletion through either is seen through both; the nested item is shared.
+   [links] maps an object to the representative of its store; after a write to w every object of w's store is
+   refreshed from w ([sync]); the class flag stays per object (from_dataset(copy=False) converts one identity only). *)
+Inductive op2 := Std (o : op) | ODelAttr (a : nat) (k : Z) | OShallow (a : nat).
+Definition links := list (nat * nat).
+Fixpoint root (l : links) (a : nat) : nat :=
+  match l with
+  | [] => a
+  | (x, r) :: t => if Nat.eqb x a then r else root t a
+  end.
+(* the elements of [src] under the class of [old] *)
+Definition share (src old : dsobj) : dsobj :=
+  DS (d_cv src) (d_lcv src) (d_urn src) (d_meaning src) (d_scheme src) (d_version src) (d_cc old).
+Definition sync (l : links) (w : nat) (h : heap) : heap :=
+  match nth_error h w with
+  | None => h
+  | Some dw => map (fun bd => if Nat.eqb (root l (fst bd)) (root l w) then share dw (snd bd) else snd bd)
+                   (combine (seq 0 (length h)) h)
+  end.
+(* the object whose elements an operation of the base machine writes *)
+Definition written (kids : list (nat * nat)) (o : op) : option nat :=
+  match o with
+  | OSetMeaning a _ | OSetCode a _ _ | OSetScheme a _ | OSetVersion a _ => Some a
+  | OSetNestedMeaning a _ => kid_of kids a
+  | _ => None
+  end.
+Definition state2 := (state * links)%type.
+Definition step2 (srt : string -> option string) (s2 : state2) (o : op2) : state2 * val :=
+  let '((h, kids), l) := s2 in
+  match o with
+  | Std o' =>
+      let '((h', kids'), v) := step srt (h, kids) o' in
+      ((match written kids o' with Some w => sync l w h' | None => h' end, kids'), l, v)
+  | ODelAttr a k =>
+      match nth_error h a with
+      | Some d => ((sync l a (update h a (delete k d)), kids), l, vnat a)
+      | None => (s2, VErr "dangling")
+      end
+  | OShallow a =>
+      match nth_error h a with
+      | Some d => (((h ++ [d])%list, match kid_of kids a with Some c => (length h, c) :: kids | None => kids end),
+                   (length h, root l a) :: l, vnat (length h))
+      | None => (s2, VErr "dangling")
+      end
+  end.
+Fixpoint run_ops2 (srt : string -> option string) (st : state2) (ops : list op2) : state2 * list val :=
+  match ops with
+  | [] => (st, [])
+  | o :: t => let '(st', v) := step2 srt st o in
+              let '(st'', vs) := run_ops2 srt st' t in (st'', v :: vs)
+  end.
+Definition run_history2 (tbl : list (string * string)) (ops : list op2) : val :=
+  let '(((h, kids), _), vs) := run_ops2 (assoc tbl) (([], []), []) ops in
+  VL [VL vs; VL (map vraw h);
+      VL (map (fun a => vopt vnat (kid_of kids a)) (seq 0 (length h)));
+      VL (map (fun d => vres VS (bind (hashable d) hash_key)) h)].
+
+(* ======================================================================================
+   Extension 8: the file round trip per value representation.
+   pydicom's reader strips, per VR: SH / LO / UC (CodeValue, LongCodeValue, CodeMeaning, CodingSchemeDesignator,
+   CodingSchemeVersion): trailing blanks AND NULs (value.rstrip("\0 ")); UR (URNCodeValue): trailing white space in
+   Python's sense (value.rstrip(): TAB LF VT FF CR FS GS RS US blank) but NOT NUL.  [file_roundtrip] above is the
+   special case of values whose only trailing padding is blanks. *)
+Definition is_pad (c : ascii) : bool := Ascii.eqb c " " || Ascii.eqb c "000".
+Definition is_ws (c : ascii) : bool :=
+  let n := N_of_ascii c in (((9 <=? n) && (n <=? 13)) || ((28 <=? n) && (n <=? 32)))%N.
+Fixpoint rstrip_by (p : ascii -> bool) (s : string) : string :=
+  match s with
+  | EmptyString => EmptyString
+  | String c t => match rstrip_by p t with
+                  | EmptyString => if p c then EmptyString else String c EmptyString
+                  | t' => String c t'
+                  end
+  end.
+Definition file_roundtrip_vr (d : dsobj) : dsobj :=
+  DS (option_map (rstrip_by is_pad) (d_cv d)) (option_map (rstrip_by is_pad) (d_lcv d))
+     (option_map (rstrip_by is_ws) (d_urn d)) (option_map (rstrip_by is_pad) (d_meaning d))
+     (option_map (rstrip_by is_pad) (d_scheme d)) (option_map (rstrip_by is_pad) (d_version d)) false.
+Definition store_file_load_vr (v s m : string) (ver : option string) : res dsobj :=
+  bind (init v s m ver) (fun d =>
+    bind (from_dataset [file_roundtrip_vr d] (Addr 0%nat) true) (fun hr =>
+      match nth_error (fst hr) (snd hr) with Some d' => Ok d' | None => Err "dangling" end)).
+(* the correspondence run writes control characters as printable stand-ins: ~ = NUL, ^ = TAB, | = LF, ` = CR *)
+Definition unesc_char (c : ascii) : ascii :=
+  if Ascii.eqb c "~" then "000"%char else if Ascii.eqb c "^" then "009"%char
+  else if Ascii.eqb c "|" then "010"%char else if Ascii.eqb c "`" then "013"%char else c.
+Definition esc_char (c : ascii) : ascii :=
+  if Ascii.eqb c "000" then "~"%char else if Ascii.eqb c "009" then "^"%char
+  else if Ascii.eqb c "010" then "|"%char else if Ascii.eqb c "013" then "`"%char else c.
+Fixpoint smap (f : ascii -> ascii) (s : string) : string :=
+  match s with EmptyString => EmptyString | String c t => String (f c) (smap f t) end.
+Definition vconcept_esc (d : dsobj) : val :=
+  let e := option_map (smap esc_char) in
+  vconcept (DS (e (d_cv d)) (e (d_lcv d)) (e (d_urn d)) (e (d_meaning d)) (e (d_scheme d)) (e (d_version d)) (d_cc d)).
+Definition run_store_file_vr (v s m : string) (ver : option string) : val :=
+  vres vconcept_esc (store_file_load_vr (smap unesc_char v) (smap unesc_char s) (smap unesc_char m)
+                                         (option_map (smap unesc_char) ver)).
